@@ -160,9 +160,42 @@ def w_repeat_till(interp, args, info):
     return P("repeat_till", [to_parser(interp, args[1]), to_parser(interp, args[2])], extra=to_range(interp, args[0]))
 
 
+class CharSet(object):
+    """a set of characters given literally to take_while / one_of (tuple, array, single char, range)"""
+    __slots__ = ("chars", "key")
+
+    def __init__(self, chars):
+        self.chars = frozenset(chars)
+        self.key = "charset:" + ",".join("%x" % c for c in sorted(self.chars))
+
+    def __repr__(self):
+        return "{%s}" % "".join(chr(c) if 0x20 < c < 0x7F else "\\x%02x" % c for c in sorted(self.chars))
+
+
+def to_class(interp, v):
+    """closure (predicate) or literal character set"""
+    from .interp import ListV
+    if isinstance(v, (Ptr, BoxV)):
+        v = interp.load(v)
+    if isinstance(v, Clo):
+        return v
+    if isinstance(v, int) and not isinstance(v, bool):
+        return CharSet([v])
+    if isinstance(v, tuple) and all(isinstance(x, int) and not isinstance(x, bool) for x in v):
+        return CharSet(v)
+    if isinstance(v, ListV) and all(isinstance(x, int) and not isinstance(x, bool) for x in v.items):
+        return CharSet(v.items)
+    if isinstance(v, Adt) and v.name in ("std::ops::RangeInclusive", "std::ops::Range") and all(isinstance(x, int) for x in v.fields[:2]):
+        hi = v.fields[1] + (1 if v.name == "std::ops::RangeInclusive" else 0)
+        if hi - v.fields[0] > 0x200:
+            raise Inconclusive("character range too large for the class abstraction", interp.where())
+        return CharSet(range(v.fields[0], hi))
+    raise Inconclusive("character class %r" % (v,), interp.where())
+
+
 @model("winnow::token::take_while")
 def w_take_while(interp, args, info):
-    return P("take_while", [args[1]], extra=to_range(interp, args[0]))
+    return P("take_while", [to_class(interp, args[1])], extra=to_range(interp, args[0]))
 
 
 @model("winnow::token::take_till")
@@ -172,7 +205,7 @@ def w_take_till(interp, args, info):
 
 @model("winnow::token::one_of")
 def w_one_of(interp, args, info):
-    return P("one_of", [args[0]])
+    return P("take_while", [to_class(interp, args[0])], extra=(1, 1))
 
 
 @model("winnow::Parser::map")
